@@ -535,6 +535,16 @@ func c09PanicSources(c *Ctx, rule string) {
 				key := f.Name + "|index|" + exprKey(y)
 				if ok, how := indexGuarded(f, g, y, y.X, y.Index); ok {
 					c.OK(rule, key, y.Pos(), 1, "%s", how)
+				} else if ok2, how2 := lookaheadCallersHaveToken(c.W, f, g, y); ok2 {
+					c.OK(rule, key, y.Pos(), 2, "%s", how2)
+				} else if cv := f.constOf(y.Index); cv != nil && cv.String() == "0" && namedTypeIs(f.TypeOf(y.X), "sql", "SelectList") {
+					// element 0 of a parsed select list: the production never returns an empty list on success (the
+					// reviewed invariant the executor relies on as well, re-checked here)
+					if okS, why := sideSelectListNonEmpty(c); okS {
+						c.OK(rule, key, y.Pos(), 2, "first element of a select list: Parser.SelectList never returns an empty list on success")
+					} else {
+						excBroken(c, rule, key, y.Pos(), "index 0 of a select list", "Parser.SelectList never returns an empty list on success", why)
+					}
 				} else {
 					c.Fail(rule, key, y.Pos(), "index expression without a dominating bound guard: %s", how)
 				}
@@ -812,7 +822,6 @@ func c09ScannerRefill(c *Ctx, rule string) {
 
 var _ = sort.Strings
 
-
 // modifiedSinceGuard: the index is a local variable that is stored (i++, i = …) on a path that reaches loc without
 // re-evaluating a condition that compares it with the length again.
 func modifiedSinceGuard(f *Func, g *Graph, loc Loc, index ast.Expr, xs string) bool {
@@ -865,4 +874,122 @@ func modifiedSinceGuard(f *Func, g *Graph, loc Loc, index ast.Expr, xs string) b
 		}
 	}
 	return false
+}
+
+
+// lookaheadCallersHaveToken: the look-ahead `tokens[cur+1]` of a TokenList method is guarded in the method against
+// cur == len-1 only; cur == len (the cursor past the last token) is excluded where every caller asks for the next
+// token only after it has seen that there is a current one — the call is the right operand of `&&` after a
+// `curType(…)` / `match(…)` conjunct, the right operand of `||` after a negated one, or dominated by the true edge of
+// such a test.
+func lookaheadCallersHaveToken(w *World, f *Func, g *Graph, ix *ast.IndexExpr) (bool, string) {
+	be, ok := ast.Unparen(ix.Index).(*ast.BinaryExpr)
+	if !ok || be.Op != token.ADD || !strings.HasSuffix(exprKey(be.X), ".cur") {
+		return false, ""
+	}
+	if cv := f.constOf(be.Y); cv == nil || cv.String() != "1" {
+		return false, ""
+	}
+	loc, ok := g.Locate(ix)
+	if !ok || !g.HoldsAt(loc, Rel{exprKey(be.X), token.NEQ, "len(" + exprKey(ix.X) + ")-1"}) {
+		return false, ""
+	}
+	in := w.CG().In[f]
+	if len(in) == 0 {
+		return true, "guarded against the last token; the look-ahead has no caller in the parser"
+	}
+	hasTokenTest := func(caller *Func, e ast.Expr, truth bool) bool {
+		// e (with the given truth value) implies that a token-type test succeeded
+		var walk func(e ast.Expr, truth bool) bool
+		walk = func(e ast.Expr, truth bool) bool {
+			e = ast.Unparen(e)
+			switch y := e.(type) {
+			case *ast.UnaryExpr:
+				if y.Op == token.NOT {
+					return walk(y.X, !truth)
+				}
+			case *ast.BinaryExpr:
+				if y.Op == token.LAND && truth {
+					return walk(y.X, true) || walk(y.Y, true)
+				}
+				if y.Op == token.LOR && !truth {
+					return walk(y.X, false) || walk(y.Y, false)
+				}
+				// `cur.Type == IDENT` (any type but EOF): the cursor is on a token
+				if (y.Op == token.EQL && truth) || (y.Op == token.NEQ && !truth) {
+					if strings.HasSuffix(exprKey(y.X), ".Type") {
+						if cst := caller.namedConst(y.Y); cst != nil && cst.Name() != "EOF" {
+							return true
+						}
+					}
+				}
+			case *ast.CallExpr:
+				if !truth {
+					return false
+				}
+				if sel, ok := ast.Unparen(y.Fun).(*ast.SelectorExpr); ok && (sel.Sel.Name == "curType" || sel.Sel.Name == "match") {
+					return true
+				}
+			}
+			return false
+		}
+		return walk(e, truth)
+	}
+	for _, cs := range in {
+		caller := cs.Caller
+		// operand position inside a short-circuit expression
+		guarded := false
+		var stack []ast.Node
+		ast.Inspect(caller.Decl.Body, func(x ast.Node) bool {
+			if x == nil {
+				stack = stack[:len(stack)-1]
+				return true
+			}
+			stack = append(stack, x)
+			if x != ast.Node(cs.Call) {
+				return true
+			}
+			for i := len(stack) - 2; i >= 0; i-- {
+				b, ok := stack[i].(*ast.BinaryExpr)
+				if !ok {
+					continue
+				}
+				inRight := b.Y.Pos() <= cs.Call.Pos() && cs.Call.End() <= b.Y.End()
+				if !inRight {
+					continue
+				}
+				if b.Op == token.LAND && hasTokenTest(caller, b.X, true) {
+					guarded = true
+				}
+				if b.Op == token.LOR && hasTokenTest(caller, b.X, false) {
+					guarded = true
+				}
+			}
+			return true
+		})
+		if !guarded {
+			// dominated by the true edge of a token test
+			cg := caller.Graph()
+			if cl, ok := cg.Locate(cs.Call); ok {
+				for _, b := range cg.c.Blocks {
+					if !cg.Reachable(b) || len(b.Succs) != 2 {
+						continue
+					}
+					for si := 0; si < 2; si++ {
+						info, ok := cg.EdgeInfo(b, si)
+						if !ok || info.Case {
+							continue
+						}
+						if hasTokenTest(caller, info.Cond, info.Val) && cg.BlockDominates(b.Succs[si], cl.B) && onlyPred(cg, b.Succs[si], b) {
+							guarded = true
+						}
+					}
+				}
+			}
+		}
+		if !guarded {
+			return false, ""
+		}
+	}
+	return true, "guarded against the last token, and every caller looks ahead only after a token-type test on the current token succeeded (the cursor is not past the end)"
 }
